@@ -68,6 +68,25 @@ def alphabet(tier, wide=None):
     return ev
 
 
+def alphabet_toggle(tier):
+    """Narrow and deep: one session toggles flags back and forth while the other stays quiet, polls or looks."""
+    A, B = "A", "B"
+    return [
+        {"s": A, "op": "store", "set": "1", "mode": "+", "flags": "\\Flagged"},
+        {"s": A, "op": "store", "set": "1", "mode": "-", "flags": "\\Flagged"},
+        {"s": A, "op": "store", "set": "1:2", "mode": "=", "flags": "\\Seen"},
+        {"s": A, "op": "store", "set": "1", "mode": "-", "flags": "\\Seen", "silent": True},
+        {"s": A, "op": "fetch", "set": "1", "items": "BODY[]"},
+        {"s": A, "op": "store", "set": "2", "mode": "+", "flags": "$Fwd", "uid": True},
+        {"s": A, "op": "store", "set": "2", "mode": "-", "flags": "$Fwd"},
+        {"s": B, "op": "noop"},
+        {"s": B, "op": "fetch", "set": "1:2", "items": "(FLAGS)"},
+        {"s": B, "op": "store", "set": "1", "mode": "+", "flags": "\\Flagged"},
+        {"s": B, "op": "idle"},
+        {"s": B, "op": "done"},
+    ]
+
+
 def run(tier, seed, jobs):
     from .hcommon import run_h
 
@@ -79,6 +98,8 @@ def run(tier, seed, jobs):
         for init in INITS:
             plans.append({"cfg_ref": ("vf.props.c04", "cfg", [init]), "alphabet": alphabet(tier), "depth": 2, "label": f"init={init} wide"})
         plans.append({"cfg_ref": ("vf.props.c04", "cfg", ["mixed"]), "alphabet": alphabet("quick"), "depth": 3, "label": "init=mixed narrow"})
+    plans.append({"cfg_ref": ("vf.props.c04", "cfg", ["plain"]), "alphabet": alphabet_toggle(tier), "depth": 4 if tier == "quick" else 6,
+                  "label": "init=plain, toggling alphabet (deep, narrow)"})
     return run_h(PROP, RULES, plans, ("C04",), jobs, seed,
                  ["two read-write sessions on INBOX(2) (B may switch to EXAMINE); flag lists as in the alphabet "
                   "(system flags, $Fwd, keywords equal to MH sequence names in the thorough tier)",
